@@ -11,16 +11,20 @@ package verifharness
 //   reset | push | pop                         (push/pop: branch / drop a cache context — exhaustive enumeration)
 //   params <0|1>
 //   bankmeta <meta>                            meta = base name symbol display desc units(d:exp,..|-)
-//   regcoin  vb* hasSupply* isEvmDenom* deployOk* deployAddr* <meta>
+//   regcoin  vb* hasSupply* isEvmDenom* deployOk* deployAddr* deployStr* <meta>     (…Str = common.Address.String())
 //   addcoin  vb* hasSupply* isEvmDenom* <contract string> <meta>
-//   regerc20 vb* <addr> qok* name* symbol* decimals* sanitized* denom* desc* mdValid*
+//   regerc20 vb* <addr> addrStr* qok* name* symbol* decimals* sanitized* denom* desc* mdValid*
 //   toggle   vb* <token string>
-//   update   vb* <old> <new> qok* name* symbol* decimals* descOld* descNew*
+//   update   vb* <old> <new> newStr* qok* name* symbol* decimals* descOld* descNew*
 //   convert  <token string> <denom> live*      (token = denom: MsgConvertCoin, else MsgConvertERC20)
 //   env kill <addr>                            (the contract self-destructs; no registry change)
-//   genvalidate <pairs> | geninit <pairs> | genexport       pairs = addr>d1,d2>enabled>owner;...
-// output: <status> en=<0|1> P:<id>addr>denoms>enabled>owner;..> E:<addr>id;..> D:<denom>id;..> M:<metadata dump | = >
-//   where every raw store id is printed as the preimage `addr|denom` the harness finds by recomputing tmhash.
+//   env wipe                                   (the three registry prefixes are emptied — a chain restarted from an export;
+//                                               contracts, balances, escrow and bank metadata stay)
+//   genvalidate <pairs> | geninit <pairs> | genexport       pairs = addrString>d1,d2>enabled>owner;...
+//                                              addrString = ERC20Address AS WRITTEN in the file (any spelling)
+// output: <status> en=<0|1> P:<id>addrString>denoms>enabled>owner;..> E:<addr>id;..> D:<denom>id;..> M:<metadata dump | = >
+//   where every raw store id is printed as the preimage `addrString|denom` the harness finds by recomputing tmhash over
+//   all address spellings and denominations seen, and addrString is the stored ERC20Address field itself.
 
 import (
 	"fmt"
@@ -70,6 +74,8 @@ type c12World struct {
 	eoa     common.Address   // an address without code
 	addrs   []common.Address // universe
 	denoms  map[string]bool  // every denomination seen (for the id table)
+	spells  map[string]bool  // every address spelling seen (for the id table)
+	wiped   *c12Snapshot     // what the registry contained at the last `env wipe`
 	idTab   map[string]string
 	handler govtypes.Handler
 	conv    map[string]bool // denominations that were convertible and whose pair was not deleted since
@@ -94,7 +100,7 @@ func newC12World() *c12World {
 	c12Must(err)
 	c12Must(a.StakingKeeper.SetValidatorByConsAddr(ctx, val))
 	a.StakingKeeper.SetValidator(ctx, val)
-	w := &c12World{app: a, denoms: map[string]bool{}, idTab: map[string]string{}}
+	w := &c12World{app: a, denoms: map[string]bool{}, spells: map[string]bool{}, idTab: map[string]string{}}
 	w.handler = aggregate.NewAggregateProposalHandler(a.AggregateKeeper)
 	w.user = common.HexToAddress("0x00000000000000000000000000000000c12c12c1")
 	w.eoa = common.HexToAddress("0x00000000000000000000000000000000000e0a01")
@@ -135,6 +141,9 @@ func newC12World() *c12World {
 		w.mod = append(w.mod, crypto.CreateAddress(aggtypes.ModuleAddress, nonce+i))
 	}
 	w.addrs = append(append(append([]common.Address{}, w.ext...), w.mod...), w.eoa)
+	for _, a := range w.addrs {
+		w.seeSpelling(a.Hex())
+	}
 	w.base = ctx
 	w.reset()
 	return w
@@ -188,10 +197,28 @@ func (w *c12World) raw(ctx sdk.Context) c12Raw {
 func (w *c12World) seeDenom(d string) {
 	if !w.denoms[d] {
 		w.denoms[d] = true
-		for _, a := range w.addrs {
-			w.idTab[string(tmhash.Sum([]byte(a.Hex()+"|"+d)))] = c12Addr(a) + "|" + hxs(d)
+		for s := range w.spells {
+			w.idTab[string(tmhash.Sum([]byte(s+"|"+d)))] = c12Str(s) + "|" + hxs(d)
 		}
 	}
+}
+
+// seeSpelling registers one way of writing an address (GetID hashes the string, not the 20 bytes).
+func (w *c12World) seeSpelling(s string) {
+	if !w.spells[s] {
+		w.spells[s] = true
+		for d := range w.denoms {
+			w.idTab[string(tmhash.Sum([]byte(s+"|"+d)))] = c12Str(s) + "|" + hxs(d)
+		}
+	}
+}
+
+// c12Str prints an address string as it is (only hex digits and x/X can occur in what IsHexAddress accepts).
+func c12Str(s string) string {
+	if s != "" && strings.Trim(s, "0123456789abcdefABCDEFxX") == "" {
+		return s
+	}
+	return "?" + hxs(s)
 }
 
 // canonical name of a raw id: the preimage found by recomputing the hash over the universe (independent of what the
@@ -226,7 +253,7 @@ func c12RenderPair(id string, p aggtypes.TokenPair) string {
 	if p.Enabled {
 		en = "1"
 	}
-	return id + ">" + c12PairAddr(p) + ">" + c12Join(ds, ",") + ">" + en + ">" + strconv.Itoa(int(p.ContractOwner))
+	return id + ">" + c12Str(p.ERC20Address) + ">" + c12Join(ds, ",") + ">" + en + ">" + strconv.Itoa(int(p.ContractOwner))
 }
 
 func c12RenderMeta(m banktypes.Metadata) string {
@@ -534,7 +561,7 @@ func c12ParsePairs(s string) []aggtypes.TokenPair {
 	}
 	for _, ps := range strings.Split(s, ";") {
 		f := strings.Split(ps, ">")
-		p := aggtypes.TokenPair{ERC20Address: c12ParseAddr(f[0]).Hex(), Enabled: f[2] == "1"}
+		p := aggtypes.TokenPair{ERC20Address: f[0], Enabled: f[2] == "1"} // the address string AS WRITTEN
 		if f[1] != "-" {
 			for _, d := range strings.Split(f[1], ",") {
 				p.Denoms = append(p.Denoms, string(unhx(d)))
@@ -599,7 +626,7 @@ func (w *c12World) apply(r *Rec, line string) (string, string) {
 		w.stack = w.stack[:len(w.stack)-1]
 		w.ctx, w.hist, w.conv, w.full, w.tainted, w.noRT = fr.ctx, w.hist[:fr.histLen], fr.conv, fr.full, fr.tainted, fr.noRT
 		return op, "ok"
-	case "mode":
+	case "mode", "genmode":
 		return op, "ok"
 	case "params":
 		p := k.GetParams(w.ctx)
@@ -610,6 +637,27 @@ func (w *c12World) apply(r *Rec, line string) (string, string) {
 		w.seeDenom(m.Base)
 		w.app.BankKeeper.SetDenomMetaData(w.ctx, m)
 	case "env":
+		if f[1] == "wipe" {
+			raw := w.raw(w.ctx)
+			snap := c12Snap(raw)
+			snap.conv = w.conv
+			w.wiped = &snap
+			w.conv = map[string]bool{}
+			st := w.ctx.KVStore(w.app.GetKey(aggtypes.StoreKey))
+			for _, pre := range [][]byte{aggtypes.KeyPrefixTokenPair, aggtypes.KeyPrefixTokenPairByERC20, aggtypes.KeyPrefixTokenPairByDenom} {
+				var keys [][]byte
+				it := sdk.KVStorePrefixIterator(st, pre)
+				for ; it.Valid(); it.Next() {
+					keys = append(keys, append([]byte{}, it.Key()...))
+				}
+				it.Close()
+				for _, key := range keys {
+					st.Delete(key)
+				}
+			}
+			r.Count("env.wipe")
+			break
+		}
 		a := c12ParseAddr(f[2])
 		sdb := statedb.New(w.ctx, w.app.EvmKeeper, statedb.NewEmptyTxConfig(common.BytesToHash(w.ctx.HeaderHash().Bytes())))
 		// ethermint v0.13 DeleteAccount removes the code blob by code HASH, i.e. the code of every contract with the same
@@ -625,7 +673,7 @@ func (w *c12World) apply(r *Rec, line string) (string, string) {
 			w.app.EvmKeeper.SetCode(w.ctx, codeHash, code)
 		}
 	case "regcoin":
-		m, _ := c12ParseMeta(f[6:])
+		m, _ := c12ParseMeta(f[7:])
 		w.seeDenom(m.Base)
 		c := aggtypes.NewRegisterCoinProposal("t", "d", m)
 		vb := c.ValidateBasic() == nil
@@ -646,7 +694,7 @@ func (w *c12World) apply(r *Rec, line string) (string, string) {
 			r.Count("assumption.fresh-deploy.broken")
 			w.tainted = true
 		}
-		op = fmt.Sprintf("regcoin %s %s %s %s %s %s", c12Bit(vb), c12Bit(hs), c12Bit(ev), c12Bit(dk), c12Addr(addr), c12MetaFields(m))
+		op = fmt.Sprintf("regcoin %s %s %s %s %s %s %s", c12Bit(vb), c12Bit(hs), c12Bit(ev), c12Bit(dk), c12Addr(addr), addr.String(), c12MetaFields(m))
 		w.lastOp = op
 		status = w.proposal(r, vb, c)
 		r.Count("regcoin." + status)
@@ -677,7 +725,7 @@ func (w *c12World) apply(r *Rec, line string) (string, string) {
 			md.Display = san
 		}
 		mv := md.Validate() == nil
-		op = fmt.Sprintf("regerc20 %s %s %s %s %s %d %s %s %s %s", c12Bit(vb), c12Addr(a), c12Bit(qok), hxs(q.Name), hxs(q.Symbol), q.Decimals, hxs(san), hxs(denom), hxs(desc), c12Bit(mv))
+		op = fmt.Sprintf("regerc20 %s %s %s %s %s %s %d %s %s %s %s", c12Bit(vb), c12Addr(a), a.String(), c12Bit(qok), hxs(q.Name), hxs(q.Symbol), q.Decimals, hxs(san), hxs(denom), hxs(desc), c12Bit(mv))
 		w.lastOp = op
 		status = w.proposal(r, vb, c)
 		r.Count("regerc20." + status)
@@ -694,7 +742,7 @@ func (w *c12World) apply(r *Rec, line string) (string, string) {
 		c := aggtypes.NewUpdateTokenPairERC20Proposal("t", "d", o.String(), n.String())
 		vb := c.ValidateBasic() == nil
 		qok, q := w.queryERC20(n)
-		op = fmt.Sprintf("update %s %s %s %s %s %s %d %s %s", c12Bit(vb), c12Addr(o), c12Addr(n), c12Bit(qok), hxs(q.Name), hxs(q.Symbol), q.Decimals,
+		op = fmt.Sprintf("update %s %s %s %s %s %s %s %d %s %s", c12Bit(vb), c12Addr(o), c12Addr(n), n.Hex(), c12Bit(qok), hxs(q.Name), hxs(q.Symbol), q.Decimals,
 			hxs(aggtypes.CreateDenomDescription(o.String())), hxs(aggtypes.CreateDenomDescription(n.String())))
 		w.lastOp = op
 		before := w.raw(w.ctx)
@@ -774,6 +822,16 @@ func (w *c12World) apply(r *Rec, line string) (string, string) {
 			status = "err"
 		}
 		r.Count("genvalidate." + status)
+		if status == "ok" {
+			// a file that Validate accepts must import into a consistent registry (given bank metadata): its pairs have to be
+			// disjoint as CONTRACTS (20 bytes) and in ALL their denominations
+			if kind := c12FileOverlap(ps); kind != "" {
+				r.Count("genvalidate.accepted-overlap." + kind)
+				r.Find(Finding{Sig: "C12:validate-accepts-inconsistent-genesis:" + kind,
+					What: "GenesisState.Validate accepts a genesis file whose import puts " + kind + " (InitGenesis then leaves a pair that is not found by its address / denomination)",
+					Ops: []string{"reset", op, "geninit " + f[1]}, Obs: "Validate: ok", Req: "error"})
+			}
+		}
 		return op, status
 	case "geninit":
 		ps := c12ParsePairs(f[1])
@@ -782,7 +840,24 @@ func (w *c12World) apply(r *Rec, line string) (string, string) {
 				w.seeDenom(d)
 			}
 		}
-		w.noRT = true
+		for _, p := range ps {
+			w.seeSpelling(p.ERC20Address)
+		}
+		// a re-import of this history's own export (after `env wipe`), whatever the spelling of the addresses: ownership
+		// claims are genuine, so conversions are demanded to work afterwards; any other file: no round-trip demands
+		reimport := w.wiped != nil && len(w.raw(w.ctx).pairs) == 0 && c12SameContent(w.wiped, ps)
+		if !reimport {
+			w.noRT = true
+		}
+		if reimport {
+			r.Count("geninit.reimport")
+		}
+		c12CountSpellings(r, ps)
+		if reimport {
+			for d := range w.wiped.conv {
+				w.conv[d] = true // must be convertible again after the import (checked by the oracle below)
+			}
+		}
 		if !c12GenesisOk(ps, w.raw(w.ctx), func(d string) bool { _, ok := w.app.BankKeeper.GetDenomMetaData(w.ctx, d); return ok }) {
 			w.tainted = true
 		}
@@ -794,6 +869,19 @@ func (w *c12World) apply(r *Rec, line string) (string, string) {
 			status = "panic"
 		} else {
 			write()
+		}
+		if reimport && !w.tainted {
+			after := c12Snap(w.raw(w.ctx))
+			same := len(after.pairs) == len(w.wiped.pairs)
+			for a, c := range w.wiped.pairs {
+				if after.pairs[a] != c {
+					same = false
+				}
+			}
+			if !same || pan {
+				r.Find(Finding{Sig: "C12:genesis-roundtrip-differs", What: "export, re-import (addresses spelled differently) does not give back the registry content",
+					Ops: append(append([]string{}, w.hist...), op), Obs: fmt.Sprint(after.pairs), Req: fmt.Sprint(w.wiped.pairs)})
+			}
 		}
 		r.Count("geninit." + status)
 	case "genexport":
@@ -830,6 +918,87 @@ func (w *c12World) apply(r *Rec, line string) (string, string) {
 		}
 	}
 	return op, out
+}
+
+// c12FileOverlap: "" if the pairs of a genesis file are pairwise disjoint, else which kind of overlap it has
+func c12FileOverlap(ps []aggtypes.TokenPair) string {
+	seenA, seenD := map[string]bool{}, map[string]bool{}
+	for _, p := range ps {
+		if seenA[c12PairAddr(p)] {
+			return "one-contract-into-two-pairs"
+		}
+		seenA[c12PairAddr(p)] = true
+		for _, d := range p.Denoms {
+			if seenD[d] {
+				return "one-denomination-into-two-pairs"
+			}
+			seenD[d] = true
+		}
+	}
+	return ""
+}
+
+// c12Snapshot: the content of the registry, independent of ids and of the spelling of addresses
+type c12Snapshot struct {
+	pairs map[string]string // addr20 -> denoms|enabled|owner
+	conv  map[string]bool
+}
+
+func c12PairContent(p aggtypes.TokenPair) string {
+	return strings.Join(p.Denoms, ",") + "|" + c12Bit(p.Enabled) + "|" + strconv.Itoa(int(p.ContractOwner))
+}
+
+func c12Snap(raw c12Raw) c12Snapshot {
+	sn := c12Snapshot{pairs: map[string]string{}}
+	for _, p := range raw.pairs {
+		sn.pairs[c12PairAddr(p)] = c12PairContent(p)
+	}
+	return sn
+}
+
+func c12SameContent(sn *c12Snapshot, ps []aggtypes.TokenPair) bool {
+	if len(ps) != len(sn.pairs) {
+		return false
+	}
+	for _, p := range ps {
+		if c, ok := sn.pairs[c12PairAddr(p)]; !ok || c != c12PairContent(p) {
+			return false
+		}
+	}
+	return true
+}
+
+// spelling class of an address string (for the distribution record)
+func c12SpellClass(s string) string {
+	body := s
+	pre := "bare"
+	if strings.HasPrefix(s, "0x") {
+		pre, body = "0x", s[2:]
+	} else if strings.HasPrefix(s, "0X") {
+		pre, body = "0X", s[2:]
+	}
+	switch {
+	case common.IsHexAddress(s) && common.HexToAddress(s).Hex()[2:] == body:
+		return pre + ".checksum"
+	case body == strings.ToLower(body):
+		return pre + ".lower"
+	case body == strings.ToUpper(body):
+		return pre + ".upper"
+	}
+	return pre + ".mixed"
+}
+
+func c12CountSpellings(r *Rec, ps []aggtypes.TokenPair) {
+	for _, p := range ps {
+		cl := c12SpellClass(p.ERC20Address)
+		r.Count("geninit.spelling." + cl)
+		if !strings.HasSuffix(cl, ".checksum") || !strings.HasPrefix(cl, "0x.") {
+			r.Count("geninit.respelled-pair")
+			if len(p.Denoms) > 1 {
+				r.Count("geninit.respelled-pair.multidenom")
+			}
+		}
+	}
 }
 
 // c12GenesisOk: the pairs of a genesis file are disjoint from each other and from what is registered, and every
@@ -880,12 +1049,12 @@ func (w *c12World) tokStr(a common.Address) string { return hxs(a.Hex()) }
 // the alphabet of the exhaustive enumeration: 3 coins, 3 interchangeable external contracts, the first module contracts
 func (w *c12World) alphabet(big bool) []string {
 	e, m := w.ext, w.mod
-	rc := func(md banktypes.Metadata) string { return "regcoin _ _ _ _ _ " + c12MetaFields(md) }
+	rc := func(md banktypes.Metadata) string { return "regcoin _ _ _ _ _ _ " + c12MetaFields(md) }
 	ac := func(md banktypes.Metadata, a common.Address) string {
 		return "addcoin _ _ _ " + w.tokStr(a) + " " + c12MetaFields(md)
 	}
-	re := func(a common.Address) string { return "regerc20 _ " + c12Addr(a) + " _ _ _ _ _ _ _ _" }
-	up := func(a, b common.Address) string { return "update _ " + c12Addr(a) + " " + c12Addr(b) + " _ _ _ _ _ _" }
+	re := func(a common.Address) string { return "regerc20 _ " + c12Addr(a) + " _ _ _ _ _ _ _ _ _" }
+	up := func(a, b common.Address) string { return "update _ " + c12Addr(a) + " " + c12Addr(b) + " _ _ _ _ _ _ _" }
 	l := []string{
 		rc(c12Coin("acoin", "acoin")),
 		rc(c12Coin("bcoin", "bcoin")),
@@ -1032,13 +1201,20 @@ func (w *c12World) randomOp(r *Rec) string {
 			for j := 0; j < nd; j++ {
 				ds = append(ds, hxs(denoms[rng.Intn(4)]))
 			}
-			l = append(l, c12Addr(addr())+">"+c12Join(ds, ",")+">"+c12Bit(rng.Intn(3) > 0)+">"+strconv.Itoa(1+rng.Intn(2)))
+			as := w.respell(r, addr())
+			switch rng.Intn(14) {
+			case 0:
+				as = as[:len(as)-1] // too short
+			case 1:
+				as = "0xzz" + as[4:] // not hex
+			}
+			l = append(l, as+">"+c12Join(ds, ",")+">"+c12Bit(rng.Intn(3) > 0)+">"+strconv.Itoa(1+rng.Intn(2)))
 		}
 		return strings.Join(l, ";")
 	}
 	switch x := rng.Intn(100); {
 	case x < 16:
-		return "regcoin _ _ _ _ _ " + c12MetaFields(meta())
+		return "regcoin _ _ _ _ _ _ " + c12MetaFields(meta())
 	case x < 32:
 		c := addr().Hex()
 		if rng.Intn(8) == 0 {
@@ -1046,11 +1222,11 @@ func (w *c12World) randomOp(r *Rec) string {
 		}
 		return "addcoin _ _ _ " + hxs(c) + " " + c12MetaFields(meta())
 	case x < 46:
-		return "regerc20 _ " + c12Addr(addr()) + " _ _ _ _ _ _ _ _"
+		return "regerc20 _ " + c12Addr(addr()) + " _ _ _ _ _ _ _ _ _"
 	case x < 56:
 		return "toggle _ " + hxs(tok())
 	case x < 72:
-		return "update _ " + c12Addr(addr()) + " " + c12Addr(addr()) + " _ _ _ _ _ _"
+		return "update _ " + c12Addr(addr()) + " " + c12Addr(addr()) + " _ _ _ _ _ _ _"
 	case x < 84:
 		if rng.Intn(2) == 0 {
 			d := tok()
@@ -1069,6 +1245,140 @@ func (w *c12World) randomOp(r *Rec) string {
 		return "genexport"
 	default:
 		return "params 1"
+	}
+}
+
+// c12Spellings: the ways of writing one address that common.IsHexAddress (hence TokenPair.Validate) accepts
+func c12Spellings(a common.Address) []string {
+	cs := a.Hex()[2:]
+	lo, up := strings.ToLower(cs), strings.ToUpper(cs)
+	flip := []byte(cs)
+	for i, c := range flip {
+		switch {
+		case c >= 'a' && c <= 'f':
+			flip[i] = c - 32
+		case c >= 'A' && c <= 'F':
+			flip[i] = c + 32
+		}
+	}
+	return []string{"0x" + cs, "0x" + lo, "0x" + up, "0X" + up, "0x" + string(flip), lo, cs, up}
+}
+
+func (w *c12World) respell(r *Rec, a common.Address) string {
+	sp := c12Spellings(a)
+	return sp[r.Rng.Intn(len(sp))]
+}
+
+// exportLine renders the real ExportGenesis of the current state as a geninit argument, every address re-spelled by f
+func (w *c12World) exportLine(f func(common.Address) string) string {
+	g := aggregate.ExportGenesis(w.ctx, *w.app.AggregateKeeper)
+	var l []string
+	for _, p := range g.TokenPairs {
+		ds := make([]string, len(p.Denoms))
+		for i, d := range p.Denoms {
+			ds[i] = hxs(d)
+		}
+		l = append(l, f(p.GetERC20Contract())+">"+c12Join(ds, ",")+">"+c12Bit(p.Enabled)+">"+strconv.Itoa(int(p.ContractOwner)))
+	}
+	return c12Join(l, ";")
+}
+
+// genesisSweep: for every spelling of the contract address and for single- and multi-denomination pairs of both owner
+// kinds: build the pair with governance actions, convert some coins, export, restart the registry from the export with the
+// address re-spelled, then enumerate ALL probe sequences up to `depth` (lookups through other spellings, toggle,
+// AddCoin, address update, conversion back, self-destruct clean-up, re-export) with the oracles after every step.
+func (w *c12World) genesisSweep(r *Rec, depth, shard, nshards int) {
+	e, m := w.ext, w.mod
+	voucher := aggtypes.CreateDenom(e[0].String())
+	type scen struct {
+		name  string
+		setup []string
+		addr  common.Address
+	}
+	rc := "regcoin _ _ _ _ _ _ " + c12MetaFields(c12Coin("acoin", "acoin"))
+	ac := func(d string, a common.Address) string {
+		return "addcoin _ _ _ " + w.tokStr(a) + " " + c12MetaFields(c12Coin(d, d))
+	}
+	re := "regerc20 _ " + c12Addr(e[0]) + " _ _ _ _ _ _ _ _ _"
+	cvCoin := "convert " + hxs("acoin") + " " + hxs("acoin") + " _"
+	cvTok := "convert " + w.tokStr(e[0]) + " " + hxs(voucher) + " _"
+	scens := []scen{
+		{"module.single", []string{rc, cvCoin}, m[0]},
+		{"module.multi", []string{rc, ac("bcoin", m[0]), cvCoin}, m[0]},
+		{"external.single", []string{re, cvTok}, e[0]},
+		{"external.multi", []string{re, ac("ccoin", e[0]), cvTok}, e[0]},
+	}
+	k := 0
+	for _, sc := range scens {
+		for si := range c12Spellings(sc.addr) {
+			k++
+			if nshards > 1 && k%nshards != shard%nshards {
+				continue
+			}
+			w.do(r, "reset")
+			for _, l := range sc.setup {
+				w.do(r, l)
+			}
+			w.do(r, "genexport")
+			line := w.exportLine(func(a common.Address) string { return c12Spellings(a)[si] })
+			w.do(r, "env wipe")
+			w.do(r, "genvalidate "+line)
+			out, _ := w.do(r, "geninit "+line)
+			r.Count("gen.sweep.root")
+			r.Count("gen.sweep." + sc.name)
+			if strings.HasPrefix(out, "ok") {
+				w.roundTrip(r)
+			}
+			a := sc.addr
+			sp := c12Spellings(a)
+			probes := []string{
+				"toggle _ " + hxs(sp[1]), // lower case
+				"toggle _ " + hxs(sp[7]), // upper case, no prefix
+				"toggle _ " + hxs("acoin"),
+				"addcoin _ _ _ " + hxs(sp[5]) + " " + c12MetaFields(c12Coin("bcoin", "bcoin")),
+				"addcoin _ _ _ " + hxs(sp[0]) + " " + c12MetaFields(c12Coin("ccoin", "ccoin")),
+				"convert " + hxs("acoin") + " " + hxs("acoin") + " _",
+				"convert " + hxs(sp[3]) + " " + hxs("acoin") + " _",
+				"convert " + hxs(sp[1]) + " " + hxs(voucher) + " _",
+				"update _ " + c12Addr(e[0]) + " " + c12Addr(e[2]) + " _ _ _ _ _ _ _",
+				"update _ " + c12Addr(e[2]) + " " + c12Addr(e[0]) + " _ _ _ _ _ _ _",
+				"regerc20 _ " + c12Addr(e[0]) + " _ _ _ _ _ _ _ _ _",
+				"env kill " + c12Addr(a),
+				"genexport",
+			}
+			counter := 0
+			w.probeDfs(r, probes, depth, &counter)
+		}
+	}
+}
+
+func (w *c12World) probeDfs(r *Rec, alpha []string, depth int, counter *int) {
+	for _, a := range alpha {
+		w.do(r, "push")
+		out, changed := w.do(r, a)
+		r.Count("gen.probe.node")
+		if strings.HasPrefix(a, "toggle") && strings.HasPrefix(out, "ok") {
+			r.Count("gen.probe.toggle.ok")
+		}
+		if strings.HasPrefix(a, "addcoin") && strings.HasPrefix(out, "ok") {
+			r.Count("gen.probe.addcoin.ok")
+		}
+		if strings.HasPrefix(a, "update") && strings.HasPrefix(out, "ok") {
+			r.Count("gen.probe.update.ok")
+		}
+		if strings.HasPrefix(a, "convert") && strings.HasPrefix(out, "conv") {
+			r.Count("gen.probe.convert.conv")
+		}
+		if changed {
+			r.Nontrivial(strings.Join(w.hist, ";"))
+			if strings.HasPrefix(out, "ok") || strings.HasPrefix(out, "del") {
+				w.roundTrip(r)
+			}
+			if depth > 1 {
+				w.probeDfs(r, alpha, depth-1, counter)
+			}
+		}
+		w.do(r, "pop")
 	}
 }
 
@@ -1092,7 +1402,11 @@ func (w *c12World) randomGenesis(r *Rec) []string {
 				k++
 			}
 		}
-		pairs = append(pairs, c12Addr(w.ext[as[i]])+">"+c12Join(l, ",")+">"+c12Bit(rng.Intn(4) > 0)+">"+strconv.Itoa(1+rng.Intn(2)))
+		a := w.ext[as[i]]
+		if i > 0 && rng.Intn(10) == 0 { // the contract of the previous pair again, in another spelling (Validate compares strings)
+			a = w.ext[as[i-1]]
+		}
+		pairs = append(pairs, w.respell(r, a)+">"+c12Join(l, ",")+">"+c12Bit(rng.Intn(4) > 0)+">"+strconv.Itoa(1+rng.Intn(2)))
 	}
 	g := strings.Join(pairs, ";")
 	return append(lines, "genvalidate "+g, "geninit "+g, "genexport")
@@ -1102,6 +1416,22 @@ func TestC12(t *testing.T) {
 	r := NewRec(t, "C12")
 	defer r.Close()
 	w := newC12World()
+	// which GenesisState.Validate does the tree under test have? (the repaired one of
+	// fixes/C12-genesis-validate-duplicates.diff compares contracts as addresses and looks at every denomination)
+	{
+		a := w.ext[0]
+		probe := aggtypes.GenesisState{Params: aggtypes.DefaultParams(), TokenPairs: []aggtypes.TokenPair{
+			{ERC20Address: strings.ToLower(a.Hex()), Denoms: []string{"acoin"}, Enabled: true, ContractOwner: aggtypes.OWNER_EXTERNAL},
+			{ERC20Address: a.Hex(), Denoms: []string{"bcoin", "acoin"}, Enabled: true, ContractOwner: aggtypes.OWNER_EXTERNAL},
+		}}
+		strict := false
+		safely(func() { strict = probe.Validate() != nil })
+		if strict {
+			w.do(r, "genmode strict")
+		} else {
+			w.do(r, "genmode orig")
+		}
+	}
 	if os.Getenv("VERIF_C12_MODEL") == "orig" { // development aid: compare against the model of the UNREPAIRED update function
 		w.do(r, "mode orig")
 	}
@@ -1137,6 +1467,12 @@ func TestC12(t *testing.T) {
 	counter := 0
 	w.do(r, "reset")
 	w.dfs(r, alpha, depth, 1, r.Shard, nshards, &counter, true)
+	// genesis files with re-spelled addresses, followed by every short probe sequence
+	gdepth := 2
+	if thorough {
+		gdepth = 3
+	}
+	w.genesisSweep(r, gdepth, r.Shard, nshards)
 	// random long histories
 	for i := 0; i < nrand; i++ {
 		w.do(r, "reset")
@@ -1159,6 +1495,17 @@ func TestC12(t *testing.T) {
 				if r.Rng.Intn(4) == 0 && (strings.HasPrefix(out, "ok") || strings.HasPrefix(out, "del")) {
 					w.roundTrip(r)
 				}
+			}
+			// export -> re-spell every address -> restart the registry from the file, then go on
+			if !w.tainted && r.Rng.Intn(12) == 0 && len(w.raw(w.ctx).pairs) > 0 {
+				w.do(r, "genexport")
+				g := w.exportLine(func(a common.Address) string { return w.respell(r, a) })
+				w.do(r, "env wipe")
+				w.do(r, "genvalidate "+g)
+				if out, _ := w.do(r, "geninit "+g); strings.HasPrefix(out, "ok") {
+					w.roundTrip(r)
+				}
+				r.Count("random.respell-roundtrip")
 			}
 		}
 		r.Count("random.history")
